@@ -454,6 +454,9 @@ type world struct {
 	fileHash [32]byte
 	hosts    map[string]int
 	consume  []int
+	// tagAttempt: the RoundTripper labels each request with its attempt number (header
+	// X-Verif-Attempt) so that a handler that starts late still finds its own record (xfault ops)
+	tagAttempt bool
 }
 
 type scriptedRT struct {
@@ -475,6 +478,9 @@ func (t *scriptedRT) RoundTrip(req *http.Request) (*http.Response, error) {
 	w.pending = r
 	w.recs = append(w.recs, r)
 	w.mu.Unlock()
+	if w.tagAttempt {
+		req.Header.Set("X-Verif-Attempt", strconv.Itoa(k))
+	}
 	if o == "nt" || o == "np" {
 		// the transport consumed some of the body before failing
 		if req.Body != nil && k < len(w.consume) {
@@ -708,6 +714,351 @@ func implXlinger(f []string, tmp string) string {
 		return "ok same"
 	}
 	return "ok DIFF healthy-server-received=" + got
+}
+
+// ---------------------------------------------------------------------------------------------
+// xfault: the upload source fails in the middle of an attempt
+
+// faultReader yields at most `left` bytes of r and then err (also when r is exhausted exactly there)
+type faultReader struct {
+	r    io.Reader
+	left int
+	err  error
+}
+
+func (f *faultReader) Read(p []byte) (int, error) {
+	if f.left <= 0 {
+		return 0, f.err
+	}
+	if len(p) > f.left {
+		p = p[:f.left]
+	}
+	n, err := f.r.Read(p)
+	f.left -= n
+	if err == io.EOF { // the file is shorter than k: fail here
+		return n, f.err
+	}
+	return n, err
+}
+
+// parseFault: "f<k>p" = permanent error (EIO on the input file), "f<k>t" = io.ErrUnexpectedEOF
+// (what a broken tar producer pipe gives; classified temporary by httperror.Temporary)
+func parseFault(entry, path string) (k int, err error, ok bool) {
+	if len(entry) < 3 || entry[0] != 'f' {
+		return 0, nil, false
+	}
+	n, e := strconv.Atoi(entry[1 : len(entry)-1])
+	if e != nil {
+		return 0, nil, false
+	}
+	switch entry[len(entry)-1] {
+	case 'p':
+		return n, &os.PathError{Op: "read", Path: path, Err: syscall.EIO}, true
+	case 't':
+		return n, io.ErrUnexpectedEOF, true
+	}
+	return 0, nil, false
+}
+
+// faultGetter: the real fileProducer; the reader of attempt i is wrapped when script[i] is a fault
+type faultGetter struct {
+	t      signers.Transformer
+	script []string
+	path   string
+	calls  int
+}
+
+func (g *faultGetter) GetReader() (io.Reader, error) {
+	i := g.calls
+	g.calls++
+	r, err := g.t.GetReader()
+	if err != nil {
+		return nil, err
+	}
+	if i < len(g.script) {
+		if k, ferr, ok := parseFault(g.script[i], g.path); ok {
+			return &faultReader{r: r, left: k, err: ferr}, nil
+		}
+	}
+	return r, nil
+}
+
+// the signing endpoint as far as the body is concerned: digest request.Body to its end; a read error
+// is refused with 400; a cleanly ended body is "signed": recorded, and answered with the scripted
+// status (200 for a fault entry: the server cannot know)
+func (w *world) faultHandler() http.Handler {
+	inner := http.HandlerFunc(func(rw http.ResponseWriter, r *http.Request) {
+		idx, _ := strconv.Atoi(r.Header.Get("X-Verif-Attempt"))
+		w.mu.Lock()
+		var p *rec
+		if idx < len(w.recs) {
+			p = w.recs[idx]
+		}
+		cur := "200"
+		if idx < len(w.script) {
+			cur = w.script[idx]
+		}
+		w.mu.Unlock()
+		h := sha256.New()
+		n, err := io.Copy(h, r.Body)
+		if err != nil {
+			http.Error(rw, "read error: "+err.Error(), http.StatusBadRequest)
+			return
+		}
+		var sum [32]byte
+		copy(sum[:], h.Sum(nil))
+		body := "full"
+		if sum != w.fileHash {
+			body = fmt.Sprintf("BAD(%d:%x)", n, sum[:4])
+		}
+		st, _ := strconv.Atoi(cur)
+		if st == 0 {
+			st = 200
+		}
+		if p != nil {
+			w.mu.Lock()
+			p.body = body
+			if st >= 300 && body != "full" { // a refused body is not an accepted one
+				p.body = "x"
+			}
+			w.mu.Unlock()
+		}
+		rw.WriteHeader(st)
+		if st < 300 {
+			rw.Write(respBody)
+		} else {
+			rw.Write([]byte("scripted failure\n"))
+		}
+	})
+	return compresshttp.Middleware(inner)
+}
+
+// xfault <accept> <retries> <n> <script> <size> <seed>: like xport; script entries f<k>p / f<k>t make the
+// reader of that attempt fail after k bytes
+func implXfault(f []string, tmp string) string {
+	accept := string(hx.MustUnHex(f[0]))
+	retries, n, size, seed := int(hx.Atoi(f[1])), int(hx.Atoi(f[2])), int(hx.Atoi(f[4])), uint64(hx.Atoi(f[5]))
+	var script []string
+	if f[3] != "-" {
+		script = strings.Split(f[3], ",")
+	}
+	data := fastBytes(seed, size)
+	p := filepath.Join(tmp, "fault.bin")
+	if err := os.WriteFile(p, data, 0600); err != nil {
+		return "err io"
+	}
+	defer os.Remove(p)
+	fh, err := os.Open(p)
+	if err != nil {
+		return "err io"
+	}
+	defer fh.Close()
+	w := &world{script: script, fileHash: sha256.Sum256(data), hosts: map[string]int{}, tagAttempt: true}
+	var bases []string
+	var servers []*httptest.Server
+	for i := 0; i < n; i++ {
+		s := httptest.NewServer(w.faultHandler())
+		servers = append(servers, s)
+		bases = append(bases, s.URL+"/")
+		w.hosts[strings.TrimPrefix(s.URL, "http://")] = i
+	}
+	tr := &http.Transport{}
+	hc := &http.Client{Transport: &scriptedRT{w: w, inner: tr}, Timeout: 60 * time.Second}
+	resp, err := remotecmd.VerifDoRequest(hc, retries, bases, "sign", "POST", accept, nil,
+		&faultGetter{t: signers.DefaultTransform(fh), script: script, path: p})
+	fin := ""
+	switch {
+	case err != nil:
+		fin = classify(err)
+	case resp == nil:
+		fin = "nothing"
+	default:
+		b, rerr := io.ReadAll(resp.Body)
+		resp.Body.Close()
+		w.mu.Lock()
+		last := w.recs[len(w.recs)-1]
+		w.mu.Unlock()
+		fin = fmt.Sprintf("resp:%d:s%d", resp.StatusCode, last.server)
+		if rerr != nil || !bytes.Equal(b, respBody) {
+			fin += ":BADRESP"
+		}
+	}
+	// wait for every handler (also those of aborted attempts) before reading the records
+	tr.CloseIdleConnections()
+	for _, s := range servers {
+		s.Close()
+	}
+	w.mu.Lock()
+	defer w.mu.Unlock()
+	var parts []string
+	for _, r := range w.recs {
+		e := r.enc
+		if e == "" {
+			e = "-"
+		}
+		parts = append(parts, fmt.Sprintf("s%d:%s:%s", r.server, e, r.body))
+	}
+	at := "-"
+	if len(parts) > 0 {
+		at = strings.Join(parts, ",")
+	}
+	return fmt.Sprintf("ok %s %s", at, fin)
+}
+
+// ---------------------------------------------------------------------------------------------
+// xresp / xraw: damaged compressed streams (implementation oracles)
+
+func compressedStream(enc string, data []byte) []byte {
+	rec := httptest.NewRecorder()
+	if err := compresshttp.CompressResponse(bytes.NewReader(data), enc, rec, 200); err != nil {
+		return nil
+	}
+	return rec.Body.Bytes()
+}
+
+// damage: cutmid = first half of the stream; notail = gzip without its 8-byte trailer / snappy without the
+// last byte of its last chunk; flip = one bit flipped 3 bytes before the end (gzip CRC / snappy chunk data);
+// cut1 = only the first byte
+func damage(kind string, enc string, z []byte) []byte {
+	out := append([]byte{}, z...)
+	switch kind {
+	case "cutmid":
+		return out[:len(out)/2]
+	case "cut1":
+		return out[:1]
+	case "notail":
+		if enc == "gzip" && len(out) >= 8 {
+			return out[:len(out)-8]
+		}
+		return out[:len(out)-1]
+	case "flip":
+		out[len(out)-3] ^= 0x10
+		return out
+	}
+	return out
+}
+
+// xresp <enc> <kind> <size> <seed>: a server answers 200 with Content-Encoding <enc> and a damaged stream
+// (HTTP framing intact); the caller of doRequest must get an error, at the latest when reading the body
+func implXresp(f []string, tmp string) string {
+	enc, kind := f[0], f[1]
+	size, seed := int(hx.Atoi(f[2])), uint64(hx.Atoi(f[3]))
+	data := fastBytes(seed, size)
+	z := compressedStream(enc, data)
+	if len(z) < 4 {
+		return "err setup"
+	}
+	bad := damage(kind, enc, z)
+	srv := httptest.NewServer(http.HandlerFunc(func(rw http.ResponseWriter, r *http.Request) {
+		io.Copy(io.Discard, r.Body)
+		rw.Header().Set("Content-Encoding", enc)
+		rw.Header().Set("Content-Length", strconv.Itoa(len(bad)))
+		rw.WriteHeader(200)
+		rw.Write(bad)
+	}))
+	defer srv.Close()
+	p := filepath.Join(tmp, "resp.bin")
+	if err := os.WriteFile(p, []byte("request"), 0600); err != nil {
+		return "err io"
+	}
+	defer os.Remove(p)
+	fh, err := os.Open(p)
+	if err != nil {
+		return "err io"
+	}
+	defer fh.Close()
+	tr := &http.Transport{DisableCompression: true}
+	defer tr.CloseIdleConnections()
+	hc := &http.Client{Transport: tr, Timeout: 60 * time.Second}
+	resp, err := remotecmd.VerifDoRequest(hc, 0, []string{srv.URL + "/"}, "sign", "POST", "", nil, getter{signers.DefaultTransform(fh)})
+	if err != nil {
+		return "ok error"
+	}
+	b, rerr := io.ReadAll(resp.Body)
+	resp.Body.Close()
+	if rerr != nil {
+		return "ok error"
+	}
+	if bytes.Equal(b, data) {
+		return "ok UNDAMAGED"
+	}
+	return fmt.Sprintf("ok SILENT(%d of %d)", len(b), len(data))
+}
+
+// xraw <enc> <kind> <size> <seed>: a hand-made request body against the real Middleware; the handler
+// digests the body and answers 200 only after a clean end.  kind clshort: raw connection, Content-Length
+// 10 larger than the (complete, valid) stream sent, then half-close.
+func implXraw(f []string, tmp string) string {
+	enc, kind := f[0], f[1]
+	size, seed := int(hx.Atoi(f[2])), uint64(hx.Atoi(f[3]))
+	data := fastBytes(seed, size)
+	z := data
+	if enc != "-" {
+		z = compressedStream(enc, data)
+		if len(z) < 4 && kind != "clshort" {
+			return "err setup"
+		}
+	}
+	var mu sync.Mutex
+	accepted := ""
+	srv := httptest.NewServer(compresshttp.Middleware(http.HandlerFunc(func(rw http.ResponseWriter, r *http.Request) {
+		b, err := io.ReadAll(r.Body)
+		if err != nil {
+			http.Error(rw, "read error", http.StatusBadRequest)
+			return
+		}
+		mu.Lock()
+		accepted = fmt.Sprintf("ACCEPTED(%d of %d)", len(b), len(data))
+		if bytes.Equal(b, data) {
+			accepted = "ACCEPTED(full)"
+		}
+		mu.Unlock()
+		rw.Write(respBody)
+	})))
+	status := 0
+	if kind == "clshort" {
+		c, err := net.Dial("tcp", strings.TrimPrefix(srv.URL, "http://"))
+		if err != nil {
+			srv.Close()
+			return "err io"
+		}
+		c.SetDeadline(time.Now().Add(20 * time.Second))
+		hdr := fmt.Sprintf("POST /sign HTTP/1.1\r\nHost: x\r\nContent-Length: %d\r\nConnection: close\r\n", len(z)+10)
+		if enc != "-" {
+			hdr += "Content-Encoding: " + enc + "\r\n"
+		}
+		c.Write([]byte(hdr + "\r\n"))
+		c.Write(z)
+		c.(*net.TCPConn).CloseWrite()
+		line, _ := bufio.NewReader(c).ReadString('\n')
+		c.Close()
+		if fs := strings.Fields(line); len(fs) >= 2 {
+			status, _ = strconv.Atoi(fs[1])
+		}
+	} else {
+		if enc == "-" {
+			srv.Close()
+			return "bad-op"
+		}
+		bad := damage(kind, enc, z)
+		req, _ := http.NewRequest("POST", srv.URL+"/sign", bytes.NewReader(bad))
+		req.Header.Set("Content-Encoding", enc)
+		tr := &http.Transport{}
+		resp, err := (&http.Client{Transport: tr, Timeout: 20 * time.Second}).Do(req)
+		if err == nil {
+			status = resp.StatusCode
+			io.Copy(io.Discard, resp.Body)
+			resp.Body.Close()
+		}
+		tr.CloseIdleConnections()
+	}
+	srv.Close()
+	mu.Lock()
+	defer mu.Unlock()
+	if accepted != "" || (status >= 200 && status < 300) {
+		return fmt.Sprintf("ok %s status=%d", accepted, status)
+	}
+	return "ok refused"
 }
 
 // ---------------------------------------------------------------------------------------------
@@ -1115,6 +1466,12 @@ func dispatch(f []string, tmp string) string {
 		return implXdown(f[1:], tmp)
 	case "xlinger":
 		return implXlinger(f[1:], tmp)
+	case "xfault":
+		return implXfault(f[1:], tmp)
+	case "xresp":
+		return implXresp(f[1:], tmp)
+	case "xraw":
+		return implXraw(f[1:], tmp)
 	case "frag":
 		return implFrag(f[1:], tmp)
 	case "transform":
